@@ -4,7 +4,6 @@ From Coq Require Import NArith List Bool.
 From AV Require Import Generated.Table Spec.Utf8 Spec.Vt Model.Base Model.Parser Proofs.TableFacts
   Proofs.VtFacts Proofs.ParserSim Proofs.VtLimits Proofs.VtCancel Proofs.VtCsi Proofs.ParserCor
   Model.Imp Model.Utf8parse Generated.ParserFn Proofs.ParserGen Proofs.ParserGen2.
-  Generated.ParserFn Proofs.ParserGen.
 From AV Require Import Model.Utf8parse Model.Imp Generated.Utf8parseFn Proofs.Utf8parseGen.
 Import ListNotations.
 Local Open Scope N_scope.
@@ -296,7 +295,7 @@ Proof. exact translated_run_is_model. Qed.
 (* anstyle-parse's own glue around the decoder, translated from crates/anstyle-parse/src/lib.rs:
    <Utf8Parser as CharAccumulator>::add with the two methods of VtUtf8Receiver, and
    <AsciiParser as CharAccumulator>::add (`unreachable!`), are the hand model's [char_add] *)
-Theorem c02_translated_char_add_is_model :
+Theorem c02_translated_utf8parse_char_add_is_model :
   forall c u b,
     (if utf8_on c then g_pa_utf8_add u b
      else option_map (fun '(_, o) => (u, o)) (g_pa_ascii_add tt b)) = char_add c u b.
